@@ -46,6 +46,22 @@ def run(ctx):
     P, cg = ctx.prog, ctx.cg
     # ------------------------------------------------ who may write
     n = {k: 0 for k in WRITERS}
+    from ..inline import known_functions
+    kk_ = known_functions()
+    kf_ = kk_[0] if kk_ else None
+    callers_of_ = {}
+    for f in P.fns.values():
+        for i in f.calls():
+            callers_of_.setdefault(f.callee(i), set()).add(owner_of(P, f).pq)
+
+    def may_write(c, own, depth=0):
+        """own is in the table, or own is a function that does not exist on the reference tree (an extracted helper) and everything
+        that calls it may write"""
+        if own in WRITERS[c]:
+            return True
+        if depth < 3 and kf_ and own not in kf_ and callers_of_.get(own):
+            return all(may_write(c, o2, depth + 1) for o2 in callers_of_[own])
+        return False
     for f in P.fns.values():
         for i in f.calls():
             c = f.callee(i)
@@ -54,7 +70,7 @@ def run(ctx):
             n[c] += 1
             o = owner_of(P, f)
             ctx.use(f)
-            ctx.check(o.pq in WRITERS[c], "who-may-write:%s:%s" % (c.split("::")[-1], short(o)), "who-may-call", f.loc(i),
+            ctx.check(may_write(c, o.pq), "who-may-write:%s:%s" % (c.split("::")[-1], short(o)), "who-may-call", f.loc(i),
                       "%s called from %s" % (c.split("::")[-1], o.pq), "%s is called from %s (allowed: %s)" % (c, o.pq, sorted(WRITERS[c])))
             if c != "Oomd::Fs::setSwappiness":
                 X = Expander(P, f)
@@ -290,7 +306,27 @@ def run(ctx):
     # what the reset writes: the value argument of both memory.high writers, through a local or directly
     Xrm = Expander(P, rm)
     wv = [Xrm(rm.nodes[i]["args"][1]) for i in rm.calls("Fs::writeMemhighAt", "Fs::writeMemhightmpAt") if len(rm.nodes[i].get("args", [])) >= 2]
-    ctx.check(len(wv) >= 1 and all("numeric_limits" in t_ and "max()" in t_ for t_ in wv), "reset-writes-max", "value-shape", rm.loc(), "reset writes max", "reset writes " + str(wv))
+    if not wv:
+        # the writers may sit in a helper extracted from writeMemhigh / resetMemhigh: the value it writes is one of its parameters
+        for i in rm.calls():
+            for u_ in P.resolve(rm.nodes[i].get("cusr", "")) if rm.nodes[i].get("cusr") else []:
+                h_ = P.fns.get(u_)
+                if h_ is None or not h_.file.startswith("oomd/"):
+                    continue
+                Xh_ = Expander(P, h_)
+                for j in h_.calls("Fs::writeMemhighAt", "Fs::writeMemhightmpAt"):
+                    if len(h_.nodes[j].get("args", [])) < 2:
+                        continue
+                    m_ = re.match(r"^param:(\w+)$", Xh_(h_.nodes[j]["args"][1]))
+                    pidx = next((k for k, p_ in enumerate(h_.params) if m_ and p_["name"] == m_.group(1)), None)
+                    if pidx is not None and pidx < len(rm.nodes[i].get("args", [])):
+                        wv.append(Xrm(rm.nodes[i]["args"][pidx]))
+                    else:
+                        wv.append(Xh_(h_.nodes[j]["args"][1]))
+    if not wv:
+        ctx.broken("reset-writes-max", "anchor", rm.loc(), "no memory.high write found in resetMemhigh or in a helper it calls directly")
+    else:
+      ctx.check(len(wv) >= 1 and all("numeric_limits" in t_ and "max()" in t_ for t_ in wv), "reset-writes-max", "value-shape", rm.loc(), "reset writes max", "reset writes " + str(wv))
 
     # ------------------------------------------------ guard polarity (sibling agreement)
     # the swap validation judges the EFFECTIVE utilisation: its fold over the ancestors is part of this property too
